@@ -80,6 +80,10 @@ def run(ctx):
     import os
     if c05_superset is not None and not os.environ.get("VERIF_SKIP_BOUNDED"):
         c05_superset.run_bounded(ctx)
+    import os as _os
+    if ctx.tier == "thorough" and not _os.environ.get("VERIF_REPO") and not _os.environ.get("VERIF_NO_CANARIES"):
+        from ._generic import run_canaries
+        run_canaries(ctx)
     return ctx.finish(
         "proof",
         "Pruning soundness decided by contracts on the real source of api.py: every returning path of filter_val (per "
